@@ -101,12 +101,12 @@ def slot_refs(c):
     return [v["$slot"] for v in c.values() if isinstance(v, dict) and len(v) == 1 and "$slot" in v]
 
 
-def closure(calls, k):
+def closure(calls, k, force=False):
     """The calls before k that BUILD the objects call k is handed (parsed schemas, caller-supplied named_schemas
     dictionaries and everything parsed into them, opened readers), in order, followed by call k itself."""
     need = set(slot_refs(calls[k]))
     if not need:
-        return None
+        return [calls[k]] if force else None     # data objects shared with earlier calls: the call alone, pristine data
     changed = True
     while changed:
         changed = False
@@ -124,9 +124,10 @@ def closure(calls, k):
     return [calls[j] for j in idx] + [calls[k]]
 
 
-def run_rebuilt(calls, k, scratch, tag):
-    """call k in a fresh interpreter that first rebuilds the argument objects by the calls that built them"""
-    sub = closure(calls, k)
+def run_rebuilt(calls, k, scratch, tag, force=False):
+    """call k in a fresh interpreter that first rebuilds the argument objects by the calls that built them
+    (data objects come from the generator's pristine copy: the pickled history is written before anything ran)"""
+    sub = closure(calls, k, force)
     if sub is None:
         return None
     try:
@@ -216,9 +217,10 @@ def _run(ctx, nh, scratch):
     fresh = {(h, i): f for (h, i, _), f in zip(jobs, fresh)}
     # ---- 2b. every call that is handed objects built by earlier calls: again in a fresh interpreter that only
     #          rebuilds those objects (what did the calls in between do to them?)
-    jobs2 = [(h, r["i"]) for h, recs in enumerate(hrecs) for r in recs if slot_refs(hists[h].calls[r["i"]])]
+    jobs2 = [(h, r["i"]) for h, recs in enumerate(hrecs) for r in recs
+             if slot_refs(hists[h].calls[r["i"]]) or hists[h].meta[r["i"]].get("shared_data")]
     with ThreadPoolExecutor(max_workers=16) as ex:
-        reb = list(ex.map(lambda j: run_rebuilt(hists[j[0]].calls, j[1], scratch, "b%d_%d" % j), jobs2))
+        reb = list(ex.map(lambda j: run_rebuilt(hists[j[0]].calls, j[1], scratch, "b%d_%d" % j, force=True), jobs2))
     rebuilt = dict(zip(jobs2, reb))
 
     # ---- 3. the model, call by call from the observed state
@@ -376,7 +378,7 @@ def differs_at_end(calls, scratch, tag, rebuilt=False):
     if not last:
         return False
     if rebuilt:
-        rb = run_rebuilt(calls, len(calls) - 1, scratch, tag + "b")
+        rb = run_rebuilt(calls, len(calls) - 1, scratch, tag + "b", force=True)
         return rb is not None and rb != last[0]["res"]
     fr = run_fresh(last[0]["pickled"], scratch, tag + "f")
     return fr is not None and fr != last[0]["res"]
@@ -407,7 +409,7 @@ def replay(ctx, rep):
         recs = run_history(calls, scratch, "rp")
         r = [x for x in recs if x["i"] == c["call_index"]][0]
         fr = run_fresh(r["pickled"], scratch, "rpf")
-        rb = run_rebuilt(calls, c["call_index"], scratch, "rpb")
+        rb = run_rebuilt(calls, c["call_index"], scratch, "rpb", force=True)
         print("call:", json.dumps(describe(calls[c["call_index"]]))[:600])
         print("after history:", json.dumps(r["res"])[:500])
         print("fresh interpreter (same argument values):", json.dumps(fr)[:500])
